@@ -143,6 +143,13 @@ pub fn c01(ctx: &mut Ctx, tier: &str, seed: u64) {
         g.extend(std::iter::repeat(b'/').take(n));
         g.push(b'b');
         giants.push(g);
+        // and a run just above every large magic number of the source (a repetition cap, a chunk size …)
+        for m in magic_numbers().iter().filter(|m| **m > 4096) {
+            let mut g = b"/a".to_vec();
+            g.extend(std::iter::repeat(b'/').take(*m + 3));
+            g.push(b'b');
+            giants.push(g);
+        }
         giants.push(std::iter::repeat(b'/').take(n).collect());
         let mut g = b"/x/".to_vec();
         for _ in 0..(n / 2 + 3) {
@@ -588,9 +595,13 @@ pub fn c04(ctx: &mut Ctx, tier: &str, seed: u64) {
         // all byte strings: also short strings over hostile bytes
         args.extend(strings_b(if win { b"\\.:a|" } else { b"/.\0a" }, 3));
         let args = dedup_keep_order(args);
-        for base in &bases {
+        let keep = cross_keep(tier, bases.len(), args.len(), 300, 150);
+        for (bi, base) in bases.iter().enumerate() {
             let cb = spec::canon(&spec_comps(win, base));
-            for p in &args {
+            for (pi, p) in args.iter().enumerate() {
+                if !keep(bi, pi) {
+                    continue;
+                }
                 let rp = format!("pushc {} {} {}", e, hex(base), hex(p));
                 at(rp.clone());
                 let v = spec::verdict(&spec_comps(win, p), win);
@@ -675,6 +686,25 @@ pub fn c04(ctx: &mut Ctx, tier: &str, seed: u64) {
                     if ub != buf || ur != r {
                         ctx.fail("utf8-push_checked-agrees", None, rp.clone(), format!("{:?} \"{}\"", ur, lossy(&ub)));
                     }
+                }
+            }
+        }
+    }
+    // DEEP arguments (hundreds to tens of thousands of components around the magic numbers and the limits of
+    // narrow integers), each against a few bases: accepted exactly when no `..` outnumbers the names before
+    // it, and then equal to the unchecked join
+    for win in [false, true] {
+        let bases: Vec<&[u8]> = if win { vec![b"", b"x", br"C:\x", br"\\?\C:\x"] } else { vec![b"", b"x", b"/x"] };
+        for arg in deep_arguments(win) {
+            let cs = spec_comps(win, &arg);
+            let want_ok = spec::verdict(&cs, win) == spec::Verdict::Ok;
+            for b in &bases {
+                ctx.evals += 1;
+                at(format!("pushc {} {} {}", gen::e(win), hex(b), hex(&arg[..arg.len().min(48)])));
+                let (res, r) = push_checked_b(win, b, &arg);
+                let plain = push_b(win, b, &arg);
+                if r.is_ok() != want_ok || (r.is_ok() && res != plain) || (!want_ok && !matches!(r, Err(CheckedPathError::PathTraversalAttack))) {
+                    ctx.fail("deep-arguments", None, format!("pushc {} {} {}", gen::e(win), hex(b), hex(&arg[..arg.len().min(48)])), format!("{} components: {:?}, expected {}", cs.len(), r.as_ref().map(|_| ()), if want_ok { "Ok" } else { "PathTraversalAttack" }));
                 }
             }
         }
